@@ -8,7 +8,7 @@ use crate::seams::SimCtl;
 use std::collections::BTreeMap;
 
 pub struct Alone {
-    answers: BTreeMap<(String, bool, Op), Answer>,
+    answers: BTreeMap<(String, u8, Op), Answer>,
     has_cycle: BTreeMap<String, bool>,
 }
 
@@ -17,12 +17,16 @@ impl Alone {
         Alone { answers: BTreeMap::new(), has_cycle: BTreeMap::new() }
     }
     pub fn answer(&mut self, doc: &Doc, tolerant: bool, op: &Op) -> Answer {
-        let key = (doc.label.clone(), tolerant, op.clone());
+        self.answer_opts(doc, if tolerant { ops::OPTS_TOLERANT } else { ops::OPTS_STRICT }, op)
+    }
+    /// the same under any combination of the four parse options (bits as in `ops::opts_from_bits`)
+    pub fn answer_opts(&mut self, doc: &Doc, bits: u8, op: &Op) -> Answer {
+        let key = (doc.label.clone(), bits, op.clone());
         if let Some(a) = self.answers.get(&key) {
             return a.clone();
         }
         let ctl = SimCtl::new(false, false);
-        let a = match ops::open(&doc.bytes, &ctl, tolerant, &doc.password) {
+        let a = match ops::open_opts(&doc.bytes, &ctl, bits, &doc.password) {
             Ok(file) => {
                 let r = file.resolver();
                 ops::exec(&file, &r, true, op)
